@@ -24,6 +24,13 @@ OVERLAYS = {
     'serial_bus.rs': 'libs/serial/src/serial_sign_bus.rs',
     'sign.rs': 'src/sign.rs',
 }
+# Isolated harness modules: overlaid like the others, but kept OUT of the content hash of every unit that does not
+# name them (unit['isolated']), so adding one does not invalidate the memoised verdicts of its siblings.  Sound because
+# such a module only adds #[cfg(kani)] items inside its own module namespace.  File names must not start with a prefix
+# listed in PKG_SOURCES.
+ISOLATED_OVERLAYS = {
+    'xpath_serial_bridge.rs': 'libs/testing/src/odk.rs',
+}
 PACKAGE_OF = {
     'libs/core/': 'flipdot-core', 'libs/testing/': 'flipdot-testing', 'libs/serial/': 'flipdot-serial', 'src/': 'flipdot',
 }
@@ -64,7 +71,8 @@ class Scratch:
             shutil.rmtree(self.dir, ignore_errors=True)
 
     def _overlay(self):
-        for mod_file, target in OVERLAYS.items():
+        self.isolated_lines = {}
+        for mod_file, target in list(OVERLAYS.items()) + list(ISOLATED_OVERLAYS.items()):
             src = os.path.join(ROOT, 'kani', mod_file)
             if not os.path.exists(src):
                 continue
@@ -79,8 +87,11 @@ class Scratch:
             text = open(src).read()
             text = re.sub(r'(?m)^//@include (\S+)\s*$', lambda m: open(os.path.join(ROOT, 'kani', m.group(1))).read(), text)
             open(dst, 'w').write(text)
+            modline = '\n#[cfg(kani)]\n#[path = "%s"]\nmod %s;\n' % (dst, modname)
             with open(tpath, 'a') as f:
-                f.write('\n#[cfg(kani)]\n#[path = "%s"]\nmod %s;\n' % (dst, modname))
+                f.write(modline)
+            if mod_file in ISOLATED_OVERLAYS:
+                self.isolated_lines[mod_file] = modline
             self.applied.append('%s += mod %s (%s)' % (target, modname, src))
         for (file, rx, lines) in ATTR_INSERTS:
             if not os.path.exists(os.path.join(ROOT, 'kani', 'core_frame.rs')):
@@ -189,15 +200,16 @@ def _limit_memory():
     resource.setrlimit(resource.RLIMIT_AS, (gb << 30, gb << 30))
 
 
-def tree_hash(scratch, package):
+def tree_hash(scratch, package, isolated=()):
     """Content hash of everything that can influence a verdict for `package`: the sources of the package and of the
     workspace crates it depends on (scratch copy of the working tree, overlay included), the manifests, the harness
     files overlaid into the package, and the tool version."""
     cache = getattr(scratch, '_hashes', None)
     if cache is None:
         cache = scratch._hashes = {}
-    if package in cache:
-        return cache[package]
+    ckey = (package, tuple(sorted(isolated)))
+    if ckey in cache:
+        return cache[ckey]
     dirs, hprefixes = PKG_SOURCES[package]
     h = hashlib.sha256()
     h.update(b'kani-0.68.0|' + package.encode() + b'|')
@@ -212,14 +224,18 @@ def tree_hash(scratch, package):
     hk = os.path.join(scratch.dir, 'verif_kani')
     if os.path.isdir(hk):
         for f in sorted(os.listdir(hk)):
-            if any(f.startswith(x) for x in hprefixes):
+            if any(f.startswith(x) for x in hprefixes) or f in isolated:
                 files.append(os.path.join(hk, f))
+    drop = [ln.encode() for f, ln in getattr(scratch, 'isolated_lines', {}).items() if f not in isolated]
     for p in files:
         h.update(os.path.relpath(p, scratch.dir).encode() + b'\0')
+        data = open(p, 'rb').read()
+        for ln in drop:
+            data = data.replace(ln, b'')
         # the overlay writes absolute scratch paths into the sources: normalise them
-        h.update(open(p, 'rb').read().replace(scratch.dir.encode(), b'<SCRATCH>') + b'\0')
-    cache[package] = h.hexdigest()
-    return cache[package]
+        h.update(data.replace(scratch.dir.encode(), b'<SCRATCH>') + b'\0')
+    cache[ckey] = h.hexdigest()
+    return cache[ckey]
 
 
 VERDICT_CACHE = os.path.join(CACHE, 'kani-verdicts')
@@ -244,13 +260,13 @@ def _cache_put(key, val):
     os.replace(tmp, os.path.join(VERDICT_CACHE, key + '.json'))
 
 
-def run_harnesses(scratch, package, harnesses, jobs=8, timeout=3600, extra_args=None, target_slot='main'):
+def run_harnesses(scratch, package, harnesses, jobs=8, timeout=3600, extra_args=None, target_slot='main', isolated=()):
     """Run the named harnesses of one package; returns (results, meta).
     Verdicts are memoised by content: key = sha256(every source file of the scratch tree incl. the overlaid harness
     modules, tool version, package, harness). Several properties share harnesses (C09/C10/C11, C16/C18, ...); a harness
     whose complete input is byte-identical to an earlier successful run is not re-solved (evidence says so). Any change to
     /repo or to the harness files changes the key. VERIF_NO_CACHE=1 disables this."""
-    th = tree_hash(scratch, package)
+    th = tree_hash(scratch, package, isolated)
     cached = {}
     todo = []
     for h in harnesses:
